@@ -18,7 +18,7 @@ from .. import e2e, guard
 from ..common import Hang, Rng, hx, unhx, watchdog
 from ..runner import Check
 from ..translate import formats
-from . import c15_refs
+from . import c15_history, c15_refs
 
 V2 = "pydantic_v2.BaseModel"
 
@@ -787,6 +787,7 @@ def run(ck: Check) -> None:
         "'JSON text' of a value is any json.dumps of it (compact, indented with blanks or tabs, ASCII-escaped or not)",
         "schemas are taken from the subset common to JSON Schema and OpenAPI 3.0 (single `type`, no nullable/type lists); a side of an interval has either an inclusive or an exclusive bound, never both",
         "definitions vs components.schemas: the JSON-Schema document has a root schema and the OpenAPI document has none, so the root model `Model` is not compared there; everywhere else every top-level definition is compared",
+        "str vs Path after a history: 'the file's content' is the content at the time of the call — the file is rewritten between calls of generate() in ONE process (same path, same encoding) and the path is compared with the text read back from the file after the write; other processes / concurrent writers are not modelled",
         "compared per top-level definition: ast.dump of the ClassDef (name, bases, members, annotations, defaults, docstrings); output model type pydantic v2, formatters off",
     ]
     guard.campaign(ck, campaign_bounds, 400 if quick else 4000)
@@ -795,6 +796,8 @@ def run(ck: Check) -> None:
     guard.campaign(ck, campaign_both_containers)
     guard.campaign(ck, c15_refs.campaign_loader, 150 if quick else 1500)
     guard.campaign(ck, c15_refs.campaign_refs, 70 if quick else 700)
+    guard.campaign(ck, c15_history.campaign_history, 60 if quick else 900)
+    ck.search_hooks.append(c15_history.search)
     ck.search_hooks.append(c15_refs.search)
     ck.search_hooks.append(search)
     known_findings(ck)
@@ -809,6 +812,8 @@ def replay(ck: Check, path: str) -> int:
         campaign_both_containers(ck)
     elif inp.get("pair") == c15_refs.PAIR:
         c15_refs.oracle_case(ck, camp, inp["definitions"], inp["extra"])
+    elif inp.get("pair") == c15_history.PAIR:
+        c15_history.oracle_case(ck, camp, inp["steps"], inp["extra"])
     elif "pair" in inp:
         oracle_case(ck, camp, inp["pair"], inp["definitions"], inp.get("with_root", True), inp.get("variant", 0))
     for f in ck.failures:
